@@ -7,7 +7,16 @@
 //!   * chains   — every ordered pair of operands u/v whose components are neighbouring Fibonacci / Lucas
 //!                numbers up to 2^30 (the worst case of Euclid's algorithm: the operator results hand
 //!                `norm` pairs with remainder chains of up to 84 steps, more than the bit width of i32/i64);
-//!   * triples  — every ordered triple of the distinct values of the box (order laws).
+//!   * triples  — every ordered triple of the distinct values of the box (order laws, `clamp`, and the std
+//!                adaptors built on the order — sort, sort_unstable, is_sorted, binary_search, iter max/min —
+//!                on the triple as a 3-element slice);
+//!   * sequences — every sequence of a few further size classes (length 2 over the box values, lengths 4–6
+//!                over the values of smaller boxes) through the same adaptors;
+//!   * long     — every rotation of four arrangements of ALL box values (ascending, descending, simplest-first,
+//!                simplest-first twice over) through the same adaptors: slices long enough for the general
+//!                (not the small-slice) sorting routines.
+//! Every trait method a user reaches through an operator is called as that operator: `==` `!=` `<` `<=` `>`
+//! `>=` on values and on references, `max` / `min` / `clamp` of `Ord`, next to `cmp` / `partial_cmp`.
 //! Operands are always built with the real `Rational::new(a, b)` from the raw pair.  A case whose exact
 //! intermediates (the cross products / sums the implementation forms on the normalised operands) do not
 //! fit the integer type is outside the property's domain: skipped and counted.
@@ -162,6 +171,24 @@ enum Form {
     AssignRef,
     Assign,
 }
+/// the four ordering operators (each a separately overridable method of `PartialOrd`)
+#[derive(Clone, Copy, PartialEq, Eq, Debug)]
+enum Rel {
+    Lt,
+    Le,
+    Gt,
+    Ge,
+}
+/// std adaptors over a slice / iterator of rationals that are built on the order of the elements
+#[derive(Clone, Copy, PartialEq, Eq, Debug)]
+enum SeqOp {
+    Sort,
+    SortUnstable,
+    IsSorted,
+    BinarySearch,
+    IterMax,
+    IterMin,
+}
 #[derive(Clone, Copy, PartialEq, Eq, Debug)]
 enum Fam {
     New,
@@ -177,9 +204,18 @@ enum Fam {
     PartialCmp,
     Antisym,
     Trans,
+    Rel(Rel),
+    Max,
+    Min,
+    Clamp,
+    Seq(SeqOp),
 }
 
-const NFAM: usize = 28;
+const NFAM: usize = 41;
+const RELS: [Rel; 4] = [Rel::Lt, Rel::Le, Rel::Gt, Rel::Ge];
+const SEQ_OPS: [SeqOp; 6] = [SeqOp::Sort, SeqOp::SortUnstable, SeqOp::IsSorted, SeqOp::BinarySearch, SeqOp::IterMax, SeqOp::IterMin];
+/// longest sequence accepted from a replay file
+const MAX_SEQ_LEN: usize = 4096;
 const OPS: [Op; 4] = [Op::Add, Op::Sub, Op::Mul, Op::Div];
 const FORMS: [Form; 4] = [Form::Val, Form::Ref, Form::AssignRef, Form::Assign];
 
@@ -189,6 +225,28 @@ impl Op {
     }
     fn sym(self) -> &'static str {
         ["+", "-", "*", "/"][self as usize]
+    }
+}
+impl Rel {
+    fn name(self) -> &'static str {
+        ["lt", "le", "gt", "ge"][self as usize]
+    }
+    fn sym(self) -> &'static str {
+        ["<", "<=", ">", ">="][self as usize]
+    }
+    /// what the operator must answer when the numeric order of the operands is `o`
+    fn holds(self, o: Ordering) -> bool {
+        match self {
+            Rel::Lt => o == Ordering::Less,
+            Rel::Le => o != Ordering::Greater,
+            Rel::Gt => o == Ordering::Greater,
+            Rel::Ge => o != Ordering::Less,
+        }
+    }
+}
+impl SeqOp {
+    fn name(self) -> &'static str {
+        ["sort", "sort_unstable", "is_sorted", "binary_search", "iter_max", "iter_min"][self as usize]
     }
 }
 impl Form {
@@ -222,6 +280,11 @@ impl Fam {
             Fam::PartialCmp => 25,
             Fam::Antisym => 26,
             Fam::Trans => 27,
+            Fam::Rel(r) => 28 + r as usize,
+            Fam::Max => 32,
+            Fam::Min => 33,
+            Fam::Clamp => 34,
+            Fam::Seq(op) => 35 + op as usize,
         }
     }
     fn all() -> Vec<Fam> {
@@ -232,6 +295,9 @@ impl Fam {
             }
         }
         v.extend([Fam::Eq, Fam::Hash, Fam::Cmp, Fam::PartialCmp, Fam::Antisym, Fam::Trans]);
+        v.extend(RELS.map(Fam::Rel));
+        v.extend([Fam::Max, Fam::Min, Fam::Clamp]);
+        v.extend(SEQ_OPS.map(Fam::Seq));
         v
     }
     fn name(self) -> String {
@@ -249,19 +315,29 @@ impl Fam {
             Fam::PartialCmp => "partial_cmp".into(),
             Fam::Antisym => "cmp_antisymmetric".into(),
             Fam::Trans => "cmp_transitive".into(),
+            Fam::Rel(r) => r.name().into(),
+            Fam::Max => "max".into(),
+            Fam::Min => "min".into(),
+            Fam::Clamp => "clamp".into(),
+            Fam::Seq(op) => op.name().into(),
         }
     }
     fn from_name(s: &str) -> Option<Fam> {
         Fam::all().into_iter().find(|f| f.name() == s)
     }
-    /// number of raw integers in a case of this family
-    fn arity(self) -> usize {
+    /// is `n` a possible number of raw integers in a case of this family
+    fn arity_ok(self, n: usize) -> bool {
         match self {
-            Fam::NewInt => 1,
-            Fam::New | Fam::Neg | Fam::Floor | Fam::Ceil | Fam::Display => 2,
-            Fam::Trans => 6,
-            _ => 4,
+            Fam::NewInt => n == 1,
+            Fam::New | Fam::Neg | Fam::Floor | Fam::Ceil | Fam::Display => n == 2,
+            Fam::Trans | Fam::Clamp => n == 6,
+            Fam::Seq(_) => n % 2 == 0 && (4..=2 * MAX_SEQ_LEN).contains(&n),
+            _ => n == 4,
         }
+    }
+    /// families over three or more operands: counted apart from the per-operand / per-pair `evaluations`
+    fn is_multi(self) -> bool {
+        matches!(self, Fam::Trans | Fam::Clamp | Fam::Seq(_))
     }
 }
 
@@ -271,6 +347,8 @@ enum Res {
     Skip,
     /// division by a zero-valued rational: outside the property's domain
     ZeroDiv,
+    /// `clamp(lo, hi)` with lo > hi: std documents a panic, the property says nothing about it
+    InvertedBounds,
     Fail(String),
 }
 
@@ -439,13 +517,17 @@ fn check_case<T: Int>(fam: Fam, c: &[i128]) -> Res {
             let (a, b, cc, d) = (c[0], c[1], c[2], c[3]);
             let exp = a * d == cc * b;
             let what = || format!("new({a}, {b}) == new({cc}, {d})");
-            let (eq, ne) = real!(what, {
+            let (eq, ne, eq_ref, ne_ref) = real!(what, {
                 let (x, y) = (rat::<T>(a, b), rat::<T>(cc, d));
-                (x == y, x != y)
+                (x == y, x != y, &x == &y, &x != &y)
             });
-            if eq != exp || ne == exp {
+            if eq != exp || ne == exp || eq_ref != exp || ne_ref == exp {
                 let what = what();
-                return Res::Fail(format!("{ty}: {what}: numerically {exp} (cross products {} vs {}), observed == {eq}, != {ne}", a * d, cc * b));
+                return Res::Fail(format!(
+                    "{ty}: {what}: numerically {exp} (cross products {} vs {}), observed x == y {eq}, x != y {ne}, &x == &y {eq_ref}, &x != &y {ne_ref}",
+                    a * d,
+                    cc * b
+                ));
             }
             Res::Pass
         }
@@ -501,6 +583,98 @@ fn check_case<T: Int>(fam: Fam, c: &[i128]) -> Res {
             }
             Res::Pass
         }
+        Fam::Rel(rel) => {
+            let (a, b, cc, d) = (c[0], c[1], c[2], c[3]);
+            let (p, q) = reduce(a, b);
+            let (r, s) = reduce(cc, d);
+            if !in_range::<T>(&sub_intermediates(p, q, r, s)) {
+                return Res::Skip;
+            }
+            let ord = cmp_ref(a, b, cc, d);
+            let exp = rel.holds(ord);
+            let sym = rel.sym();
+            let what = || format!("x = new({a}, {b}), y = new({cc}, {d}), x {sym} y");
+            let (val, by_ref) = real!(what, {
+                let (x, y) = (rat::<T>(a, b), rat::<T>(cc, d));
+                match rel {
+                    Rel::Lt => (x < y, &x < &y),
+                    Rel::Le => (x <= y, &x <= &y),
+                    Rel::Gt => (x > y, &x > &y),
+                    Rel::Ge => (x >= y, &x >= &y),
+                }
+            });
+            if val != exp || by_ref != exp {
+                let what = what();
+                return Res::Fail(format!(
+                    "{ty}: {what}: the numeric order of x against y is {} (sign of a*d - c*b with positive denominators), so the operator must answer {exp}; observed x {sym} y = {val}, &x {sym} &y = {by_ref}",
+                    oname(ord)
+                ));
+            }
+            Res::Pass
+        }
+        Fam::Max | Fam::Min => {
+            let (a, b, cc, d) = (c[0], c[1], c[2], c[3]);
+            let (p, q) = reduce(a, b);
+            let (r, s) = reduce(cc, d);
+            if !in_range::<T>(&sub_intermediates(p, q, r, s)) {
+                return Res::Skip;
+            }
+            let ord = cmp_ref(a, b, cc, d);
+            // numerically equal operands are the same pair of fields, so "which of the two" cannot be observed
+            let (exp, nm) = if fam == Fam::Max {
+                (if ord == Ordering::Less { (r, s) } else { (p, q) }, "max")
+            } else {
+                (if ord == Ordering::Greater { (r, s) } else { (p, q) }, "min")
+            };
+            let what = || format!("x = new({a}, {b}), y = new({cc}, {d}), x.{nm}(y)");
+            let got = real!(what, {
+                let (x, y) = (rat::<T>(a, b), rat::<T>(cc, d));
+                if fam == Fam::Max {
+                    [fields(&x.max(y)), fields(&std::cmp::max(x, y)), fields(std::cmp::max(&x, &y))]
+                } else {
+                    [fields(&x.min(y)), fields(&std::cmp::min(x, y)), fields(std::cmp::min(&x, &y))]
+                }
+            });
+            if got.iter().any(|g| *g != exp) {
+                let what = what();
+                let shown: Vec<String> = got.iter().map(|g| format!("{}/{}", g.0, g.1)).collect();
+                return Res::Fail(format!(
+                    "{ty}: {what}: expected {}/{} (the numerically {} operand), observed x.{nm}(y) = {}, std::cmp::{nm}(x, y) = {}, *std::cmp::{nm}(&x, &y) = {}",
+                    exp.0,
+                    exp.1,
+                    if fam == Fam::Max { "greater" } else { "smaller" },
+                    shown[0],
+                    shown[1],
+                    shown[2]
+                ));
+            }
+            Res::Pass
+        }
+        Fam::Clamp => {
+            let n = [reduce(c[0], c[1]), reduce(c[2], c[3]), reduce(c[4], c[5])];
+            if !seq_in_range::<T>(&n) {
+                return Res::Skip;
+            }
+            let ord = |i: usize, j: usize| cmp_ref(n[i].0, n[i].1, n[j].0, n[j].1);
+            if ord(1, 2) == Ordering::Greater {
+                return Res::InvertedBounds;
+            }
+            let exp = if ord(0, 1) == Ordering::Less {
+                n[1]
+            } else if ord(0, 2) == Ordering::Greater {
+                n[2]
+            } else {
+                n[0]
+            };
+            let what = || format!("x = new({}, {}), lo = new({}, {}), hi = new({}, {}), x.clamp(lo, hi)", c[0], c[1], c[2], c[3], c[4], c[5]);
+            let got = real!(what, fields(&rat::<T>(c[0], c[1]).clamp(rat::<T>(c[2], c[3]), rat::<T>(c[4], c[5]))));
+            if got != exp {
+                let what = what();
+                return Res::Fail(format!("{ty}: {what}: lo <= hi numerically, expected {}/{}, observed {}/{}", exp.0, exp.1, got.0, got.1));
+            }
+            Res::Pass
+        }
+        Fam::Seq(op) => check_seq::<T>(op, c),
         Fam::Trans => {
             let n = [reduce(c[0], c[1]), reduce(c[2], c[3]), reduce(c[4], c[5])];
             for (i, j) in [(0, 1), (1, 2), (0, 2)] {
@@ -541,6 +715,125 @@ fn check_case<T: Int>(fam: Fam, c: &[i128]) -> Res {
     }
 }
 
+/// Do the differences the implementation may form between any two of these normalised values fit the type?
+fn seq_in_range<T: Int>(n: &[(i128, i128)]) -> bool {
+    let m = n.iter().map(|v| v.0.abs().max(v.1)).max().unwrap_or(0);
+    if 2 * m * m <= T::MAXV {
+        return true;
+    }
+    (0..n.len()).all(|i| (i + 1..n.len()).all(|j| in_range::<T>(&sub_intermediates(n[i].0, n[i].1, n[j].0, n[j].1))))
+}
+
+fn seq_text(v: &[(i128, i128)]) -> String {
+    let f = |x: &(i128, i128)| format!("{}/{}", x.0, x.1);
+    if v.len() <= 8 {
+        format!("[{}]", v.iter().map(f).collect::<Vec<_>>().join(", "))
+    } else {
+        format!("[{}, … {} more …, {}]", v[..4].iter().map(f).collect::<Vec<_>>().join(", "), v.len() - 6, v[v.len() - 2..].iter().map(f).collect::<Vec<_>>().join(", "))
+    }
+}
+
+/// ONE order-based std adaptor on ONE sequence of raw operands (c = a1, b1, a2, b2, …), each built with `new`.
+/// Numerically equal rationals have identical fields, so stability / choice among equals is unobservable and
+/// every adaptor has exactly one right answer (binary_search: any index holding the probe).
+fn check_seq<T: Int>(op: SeqOp, c: &[i128]) -> Res {
+    let ty = T::NAME;
+    let raw: Vec<(i128, i128)> = c.chunks(2).map(|p| (p[0], p[1])).collect();
+    let n: Vec<(i128, i128)> = raw.iter().map(|&(a, b)| reduce(a, b)).collect();
+    if !seq_in_range::<T>(&n) {
+        return Res::Skip;
+    }
+    let by_value = |x: &(i128, i128), y: &(i128, i128)| cmp_ref(x.0, x.1, y.0, y.1);
+    let build = |v: &[(i128, i128)]| -> Vec<Rational<T>> { v.iter().map(|&(a, b)| rat::<T>(a, b)).collect() };
+    let list = |v: &[Rational<T>]| -> Vec<(i128, i128)> { v.iter().map(fields).collect() };
+    let input = seq_text(&raw);
+    macro_rules! real {
+        ($what:expr, $e:expr) => {
+            match catch(|| $e) {
+                Ok(v) => v,
+                Err(m) => return Res::Fail(format!("{ty}: v = {input} (each built with new), {}: the real code panicked: {m}", $what)),
+            }
+        };
+    }
+    match op {
+        SeqOp::Sort | SeqOp::SortUnstable => {
+            let mut exp = n.clone();
+            exp.sort_by(by_value);
+            let nm = if op == SeqOp::Sort { "v.sort()" } else { "v.sort_unstable()" };
+            let got = real!(nm, {
+                let mut v = build(&raw);
+                if op == SeqOp::Sort {
+                    v.sort()
+                } else {
+                    v.sort_unstable()
+                }
+                list(&v)
+            });
+            if got != exp {
+                let at = (0..exp.len()).find(|&i| got.get(i) != Some(&exp[i])).unwrap_or(0);
+                return Res::Fail(format!(
+                    "{ty}: v = {input} (each built with new), {nm}: expected the values in numeric order {}, observed {} (first difference at index {at})",
+                    seq_text(&exp),
+                    seq_text(&got)
+                ));
+            }
+        }
+        SeqOp::IsSorted => {
+            let exp = n.windows(2).all(|w| by_value(&w[0], &w[1]) != Ordering::Greater);
+            let got = real!("v.is_sorted()", build(&raw).is_sorted());
+            if got != exp {
+                return Res::Fail(format!("{ty}: v = {input} (each built with new), v.is_sorted(): numerically {exp}, observed {got}"));
+            }
+        }
+        SeqOp::BinarySearch => {
+            let (probe, rest) = n.split_last().unwrap();
+            let mut hay = rest.to_vec();
+            hay.sort_by(by_value);
+            let got = real!("h = all but the last in numeric order, h.binary_search(&last)", build(&hay).binary_search(&rat::<T>(probe.0, probe.1)));
+            let below = hay.iter().filter(|h| by_value(h, probe) == Ordering::Less).count();
+            let present = hay.contains(probe);
+            let ok = match got {
+                Ok(i) => i < hay.len() && hay[i] == *probe,
+                Err(i) => !present && i == below,
+            };
+            if !ok {
+                let want = if present { format!("Ok(i) with h[i] = {}/{}", probe.0, probe.1) } else { format!("Err({below})") };
+                return Res::Fail(format!(
+                    "{ty}: h = {} (the numeric order of all but the last of {input}, each built with new), h.binary_search(&new({}, {})): expected {want}, observed {got:?}",
+                    seq_text(&hay),
+                    probe.0,
+                    probe.1
+                ));
+            }
+        }
+        SeqOp::IterMax | SeqOp::IterMin => {
+            let mx = op == SeqOp::IterMax;
+            let exp = if mx { *n.iter().max_by(|x, y| by_value(x, y)).unwrap() } else { *n.iter().min_by(|x, y| by_value(x, y)).unwrap() };
+            let nm = if mx { "max" } else { "min" };
+            let got = real!(format!("v.iter().{nm}() and companions"), {
+                let v = build(&raw);
+                if mx {
+                    [v.iter().max().map(fields), v.iter().copied().max().map(|r| fields(&r)), v.iter().copied().reduce(Ord::max).map(|r| fields(&r))]
+                } else {
+                    [v.iter().min().map(fields), v.iter().copied().min().map(|r| fields(&r)), v.iter().copied().reduce(Ord::min).map(|r| fields(&r))]
+                }
+            });
+            if got.iter().any(|g| *g != Some(exp)) {
+                return Res::Fail(format!(
+                    "{ty}: v = {input} (each built with new): the numerically {} element is {}/{}; observed v.iter().{nm}() = {:?}, v.iter().copied().{nm}() = {:?}, v.iter().copied().reduce(Ord::{nm}) = {:?}",
+                    if mx { "greatest" } else { "least" },
+                    exp.0,
+                    exp.1,
+                    got[0],
+                    got[1],
+                    got[2]
+                ));
+            }
+        }
+    }
+    Res::Pass
+}
+
 const SINGLE_FAMS: [Fam; 5] = [Fam::New, Fam::Neg, Fam::Floor, Fam::Ceil, Fam::Display];
 
 fn pair_fams() -> Vec<Fam> {
@@ -551,7 +844,14 @@ fn pair_fams() -> Vec<Fam> {
         }
     }
     v.extend([Fam::Eq, Fam::Hash, Fam::Cmp, Fam::PartialCmp, Fam::Antisym]);
+    v.extend(RELS.map(Fam::Rel));
+    v.extend([Fam::Max, Fam::Min]);
     v
+}
+
+/// the families evaluated on every sequence of three or more operands
+fn seq_fams() -> Vec<Fam> {
+    SEQ_OPS.map(Fam::Seq).to_vec()
 }
 
 // ---------------------------------------------------------------------------------------------
@@ -572,7 +872,7 @@ struct FailRec {
     summary: String,
 }
 
-const NV_NAMES: [&str; 16] = [
+const NV_NAMES: [&str; 17] = [
     "new_negative_denominator_with_common_factor",
     "div_by_negative_value",
     "floor_of_negative_integer",
@@ -589,6 +889,19 @@ const NV_NAMES: [&str; 16] = [
     "add_result_needs_reduction",
     "zero_numerator_operand",
     "both_denominators_negative",
+    "two_negative_values_with_different_denominators_ordered_against_their_numerators",
+];
+
+/// situations of the multi-operand families (counted on evaluated cases, from the reference)
+const SEQ_NV_NAMES: [&str; 8] = [
+    "sequence_not_in_numeric_order",
+    "sequence_in_numeric_order",
+    "sequence_with_a_repeated_value",
+    "binary_search_probe_present",
+    "binary_search_probe_absent",
+    "clamp_raises_to_lo",
+    "clamp_lowers_to_hi",
+    "clamp_leaves_unchanged",
 ];
 
 /// entry points whose (numerator, denominator) pair goes through `norm`, i.e. through gcd
@@ -599,12 +912,17 @@ struct Acc {
     singles: u64,
     pairs: u64,
     triples: u64,
+    sequences: u64,
     evals: [u64; NFAM],
     skipped: [u64; NFAM],
     failed: [u64; NFAM],
     zero_div: u64,
+    inverted: u64,
     nontrivial: u64,
-    nv: [u64; 16],
+    nv: [u64; 17],
+    seq_nv: [u64; 8],
+    /// longest sequence evaluated
+    seq_max_len: usize,
     /// longest Euclidean chain of a pair handed to `norm`, by entry point (CHAIN_ENTRY), over evaluated cases
     chain_max: [u32; 5],
     /// evaluated entry-point calls whose pair has a chain longer than 32 / 64 steps
@@ -619,12 +937,16 @@ impl Acc {
             singles: 0,
             pairs: 0,
             triples: 0,
+            sequences: 0,
             evals: [0; NFAM],
             skipped: [0; NFAM],
             failed: [0; NFAM],
             zero_div: 0,
+            inverted: 0,
             nontrivial: 0,
-            nv: [0; 16],
+            nv: [0; 17],
+            seq_nv: [0; 8],
+            seq_max_len: 0,
             chain_max: [0; 5],
             chain_over: [0; 2],
             first: vec![None; NFAM],
@@ -641,6 +963,12 @@ impl Acc {
         self.singles += o.singles;
         self.pairs += o.pairs;
         self.triples += o.triples;
+        self.sequences += o.sequences;
+        self.inverted += o.inverted;
+        self.seq_max_len = self.seq_max_len.max(o.seq_max_len);
+        for i in 0..self.seq_nv.len() {
+            self.seq_nv[i] += o.seq_nv[i];
+        }
         for i in 0..NFAM {
             self.evals[i] += o.evals[i];
             self.skipped[i] += o.skipped[i];
@@ -684,6 +1012,10 @@ impl Acc {
                 self.zero_div += 1;
                 false
             }
+            Res::InvertedBounds => {
+                self.inverted += 1;
+                false
+            }
             Res::Fail(summary) => {
                 self.evals[i] += 1;
                 self.failed[i] += 1;
@@ -720,6 +1052,23 @@ impl Acc {
         let mut chain = serde_json::Map::new();
         for (i, n) in CHAIN_ENTRY.iter().enumerate() {
             chain.insert(n.to_string(), json!(self.chain_max[i]));
+        }
+        if self.pairs == 0 {
+            // a space of the multi-operand families only
+            let mut snv = serde_json::Map::new();
+            for (i, n) in SEQ_NV_NAMES.iter().enumerate() {
+                snv.insert(n.to_string(), json!(self.seq_nv[i]));
+            }
+            return json!({
+                "operand_triples": self.triples,
+                "operand_sequences": self.sequences,
+                "longest_sequence": self.seq_max_len,
+                "evaluations": self.total_evals(),
+                "skipped_out_of_domain": self.total_skipped(),
+                "skipped_inverted_clamp_bounds": self.inverted,
+                "families": Value::Object(fams),
+                "situations_reached": Value::Object(snv),
+            });
         }
         json!({
             "operands": self.singles,
@@ -794,6 +1143,7 @@ fn pair<T: Int>(acc: &mut Acc, fams: &[Fam], a: i128, b: i128, c: i128, d: i128,
     acc.nv[12] += (!canonical) as u64;
     acc.nv[14] += (a == 0 || c == 0) as u64;
     acc.nv[15] += (b < 0 && d < 0) as u64;
+    acc.nv[16] += (cmp_evaluated && p < 0 && r < 0 && q != s && p != r && p.cmp(&r) != cmp_ref(a, b, c, d)) as u64;
     // results of the four operators on the normalised operands, before the operator's own normalisation
     let raw: [(Option<(i128, i128)>, &[i128]); 4] = [
         (Some((p * s + q * r, q * s)), &[p * s, q * r, p * s + q * r, q * s]),
@@ -839,7 +1189,87 @@ fn run_pairs<T: Int>(ops: &[(i128, i128)], space: &'static str, collect: bool) -
         .reduce(Acc::new, Acc::merge)
 }
 
+/// every order-based adaptor on one sequence (case = a1, b1, a2, b2, …)
+fn sequence<T: Int>(acc: &mut Acc, fams: &[Fam], case: &[i128], space: &'static str) {
+    acc.sequences += 1;
+    let mut evaluated = false;
+    for &fam in fams {
+        evaluated |= acc.record::<T>(fam, space, case, check_case::<T>(fam, case));
+    }
+    if !evaluated {
+        return;
+    }
+    let n: Vec<(i128, i128)> = case.chunks(2).map(|p| reduce(p[0], p[1])).collect();
+    acc.seq_max_len = acc.seq_max_len.max(n.len());
+    let sorted = n.windows(2).all(|w| cmp_ref(w[0].0, w[0].1, w[1].0, w[1].1) != Ordering::Greater);
+    acc.seq_nv[if sorted { 1 } else { 0 }] += 1;
+    let distinct: BTreeSet<&(i128, i128)> = n.iter().collect();
+    acc.seq_nv[2] += (distinct.len() < n.len()) as u64;
+    let (probe, rest) = n.split_last().unwrap();
+    acc.seq_nv[if rest.contains(probe) { 3 } else { 4 }] += 1;
+}
+
+/// A class of short sequences: every sequence of `len` operands over `vals` (vals.len()^len of them).
+struct SeqClass {
+    bound: i128,
+    len: usize,
+    vals: Vec<(i128, i128)>,
+}
+
+fn run_seq_classes<T: Int>(classes: &[SeqClass]) -> Acc {
+    let fams = seq_fams();
+    let mut total = Acc::new();
+    for cl in classes {
+        let n = cl.vals.len();
+        let count = n.pow(cl.len as u32);
+        let acc = (0..count)
+            .into_par_iter()
+            .fold(Acc::new, |mut acc, mut idx| {
+                // digits of idx in base n, most significant first: enumeration order is lexicographic in `vals`
+                let mut case = vec![0i128; 2 * cl.len];
+                for k in (0..cl.len).rev() {
+                    let v = cl.vals[idx % n];
+                    idx /= n;
+                    case[2 * k] = v.0;
+                    case[2 * k + 1] = v.1;
+                }
+                sequence::<T>(&mut acc, &fams, &case, "sequences");
+                acc
+            })
+            .reduce(Acc::new, Acc::merge);
+        total = total.merge(acc);
+    }
+    total
+}
+
+fn run_long<T: Int>(seqs: &[Vec<i128>]) -> Acc {
+    let fams = seq_fams();
+    seqs.par_iter()
+        .fold(Acc::new, |mut acc, case| {
+            sequence::<T>(&mut acc, &fams, case, "long");
+            acc
+        })
+        .reduce(Acc::new, Acc::merge)
+}
+
+/// Every rotation of four arrangements of all the values: ascending, descending, simplest-first (the order of
+/// `vals`, numerically scrambled), and simplest-first twice over (every value repeated far apart).
+fn long_sequences(vals: &[(i128, i128)]) -> Vec<Vec<i128>> {
+    let mut asc = vals.to_vec();
+    asc.sort_by(|x, y| cmp_ref(x.0, x.1, y.0, y.1));
+    let desc: Vec<(i128, i128)> = asc.iter().rev().copied().collect();
+    let twice: Vec<(i128, i128)> = vals.iter().chain(vals.iter()).copied().collect();
+    let mut out = vec![];
+    for base in [asc, desc, vals.to_vec(), twice] {
+        for r in 0..vals.len() {
+            out.push(base[r..].iter().chain(base[..r].iter()).flat_map(|&(a, b)| [a, b]).collect());
+        }
+    }
+    out
+}
+
 fn run_triples<T: Int>(vals: &[(i128, i128)]) -> Acc {
+    let fams = seq_fams();
     (0..vals.len())
         .into_par_iter()
         .fold(Acc::new, |mut acc, i| {
@@ -849,6 +1279,17 @@ fn run_triples<T: Int>(vals: &[(i128, i128)]) -> Acc {
                     acc.triples += 1;
                     let case = [x.0, x.1, y.0, y.1, z.0, z.1];
                     acc.record::<T>(Fam::Trans, "triples", &case, check_case::<T>(Fam::Trans, &case));
+                    if acc.record::<T>(Fam::Clamp, "triples", &case, check_case::<T>(Fam::Clamp, &case)) {
+                        let k = if cmp_ref(x.0, x.1, y.0, y.1) == Ordering::Less {
+                            5
+                        } else if cmp_ref(x.0, x.1, z.0, z.1) == Ordering::Greater {
+                            6
+                        } else {
+                            7
+                        };
+                        acc.seq_nv[k] += 1;
+                    }
+                    sequence::<T>(&mut acc, &fams, &case, "triples");
                 }
             }
             acc
@@ -934,7 +1375,13 @@ fn case_text(c: &[i128]) -> String {
     if c.len() == 1 {
         return c[0].to_string();
     }
-    c.chunks(2).map(|p| format!("{}/{}", p[0], p[1])).collect::<Vec<_>>().join(",")
+    let frac = |p: &[i128]| format!("{}/{}", p[0], p[1]);
+    if c.len() > 16 {
+        // a long sequence: its first elements, its length and a checksum of all of it
+        let bytes: Vec<u8> = c.iter().flat_map(|v| v.to_le_bytes()).collect();
+        return format!("{},…(n={},fnv={:016x})", c[..8].chunks(2).map(frac).collect::<Vec<_>>().join(","), c.len() / 2, fnv(&bytes));
+    }
+    c.chunks(2).map(frac).collect::<Vec<_>>().join(",")
 }
 
 fn dispatch(ty: &str, fam: Fam, case: &[i128]) -> Option<Res> {
@@ -957,7 +1404,7 @@ fn confirm(v: &Value) -> Result<(), String> {
         Some(a) => a.iter().map(|x| x.as_i64().unwrap_or_else(|| bad("case entries must be integers")) as i128).collect(),
         None => bad("missing case"),
     };
-    if case.len() != fam.arity() {
+    if !fam.arity_ok(case.len()) {
         bad("wrong number of integers for this family");
     }
     if case.iter().any(|x| x.abs() > LIMIT) || case.iter().skip(1).step_by(2).any(|&d| d == 0) {
@@ -986,7 +1433,11 @@ fn sample<T: Int>(space: &str, a: i128, b: i128, c: i128, d: i128) -> Value {
             "x/y": if r == 0 { json!("skipped: zero divisor") } else if fits(&[p * s, q * r]) { json!(f(x / y)) } else { json!("skipped: intermediate exceeds the type") },
             "-x": f(-x),
             "x.cmp(&y)": if fits(&sub_intermediates(p, q, r, s)) { json!(oname(x.cmp(&y))) } else { json!("skipped: intermediate exceeds the type") },
+            "x<y": if fits(&sub_intermediates(p, q, r, s)) { json!(x < y) } else { json!("skipped: intermediate exceeds the type") },
+            "x>=y": if fits(&sub_intermediates(p, q, r, s)) { json!(x >= y) } else { json!("skipped: intermediate exceeds the type") },
+            "x.max(y)": if fits(&sub_intermediates(p, q, r, s)) { json!(f(x.max(y))) } else { json!("skipped: intermediate exceeds the type") },
             "x==y": x == y,
+            "x!=y": x != y,
             "x.floor()": f(x.floor()), "x.ceil()": f(x.ceil()),
             "hash(x)": format!("{:#018x}", hash_of(&x)),
         })
@@ -994,11 +1445,38 @@ fn sample<T: Int>(space: &str, a: i128, b: i128, c: i128, d: i128) -> Value {
     json!({"space": space, "type": T::NAME, "raw": case_text(&[a, b, c, d]), "observed": r.unwrap_or_else(|m| json!(format!("panicked: {m}")))})
 }
 
-const SPACES: [&str; 4] = ["box", "boundary", "chains", "triples"];
+const SPACES: [&str; 6] = ["box", "boundary", "chains", "triples", "sequences", "long"];
 
-fn run_type<T: Int>(box_ops: &[(i128, i128)], bnd_ops: &[(i128, i128)], chn_ops: &[(i128, i128)], vals: &[(i128, i128)]) -> [Acc; 4] {
-    [run_pairs::<T>(box_ops, "box", true), run_pairs::<T>(bnd_ops, "boundary", false), run_pairs::<T>(chn_ops, "chains", false), run_triples::<T>(vals)]
+/// the enumerated input spaces (the same for every integer type)
+struct Spaces {
+    box_ops: Vec<(i128, i128)>,
+    bnd_ops: Vec<(i128, i128)>,
+    chn_ops: Vec<(i128, i128)>,
+    /// distinct values of the box, one canonical raw pair each, simplest first
+    vals: Vec<(i128, i128)>,
+    classes: Vec<SeqClass>,
+    long: Vec<Vec<i128>>,
 }
+
+fn run_type<T: Int>(sp: &Spaces) -> [Acc; 6] {
+    [
+        run_pairs::<T>(&sp.box_ops, "box", true),
+        run_pairs::<T>(&sp.bnd_ops, "boundary", false),
+        run_pairs::<T>(&sp.chn_ops, "chains", false),
+        run_triples::<T>(&sp.vals),
+        run_seq_classes::<T>(&sp.classes),
+        run_long::<T>(&sp.long),
+    ]
+}
+
+/// the distinct values of the box of bound `b`: lowest terms, positive denominator, simplest first
+fn box_values(b: i128) -> Vec<(i128, i128)> {
+    let mags: Vec<i128> = (1..=b).collect();
+    operands(&mags).into_iter().filter(|&(a, b)| reduce(a, b) == (a, b)).collect()
+}
+
+/// (box bound, length) of the short sequence classes next to the triples of the full box
+const SEQ_CLASSES: [(i128, usize); 3] = [(3, 4), (2, 5), (2, 6)];
 
 fn main() {
     let args = Args::parse();
@@ -1067,19 +1545,27 @@ fn main() {
         }
     }
     // distinct values of the box, one canonical raw representative each, simplest first
-    let vals: Vec<(i128, i128)> = box_ops.iter().copied().filter(|&(a, b)| reduce(a, b) == (a, b)).collect();
+    let vals: Vec<(i128, i128)> = box_values(bound);
     {
         let set: BTreeSet<(i128, i128)> = box_ops.iter().map(|&(a, b)| reduce(a, b)).collect();
-        if set.len() != vals.len() {
+        if set.len() != vals.len() || vals.iter().any(|v| !set.contains(v)) {
             run.machinery_failure("distinct-value list of the box is inconsistent");
         }
     }
+    // short sequence classes: length 2 over all box values, longer ones over the values of smaller boxes
+    let mut classes = vec![SeqClass { bound, len: 2, vals: vals.clone() }];
+    for (b, len) in SEQ_CLASSES {
+        let b = b.min(bound);
+        classes.push(SeqClass { bound: b, len, vals: box_values(b) });
+    }
+    let long = long_sequences(&vals);
+    if long.iter().any(|c| c.len() / 2 > MAX_SEQ_LEN) {
+        run.machinery_failure("a long sequence exceeds the length a replay file may carry");
+    }
+    let sp = Spaces { box_ops, bnd_ops, chn_ops, vals, classes, long };
+    let Spaces { box_ops, bnd_ops, chn_ops, vals, classes, long } = &sp;
 
-    let accs: [[Acc; 4]; 3] = [
-        run_type::<i32>(&box_ops, &bnd_ops, &chn_ops, &vals),
-        run_type::<i64>(&box_ops, &bnd_ops, &chn_ops, &vals),
-        run_type::<i128>(&box_ops, &bnd_ops, &chn_ops, &vals),
-    ];
+    let accs: [[Acc; 6]; 3] = [run_type::<i32>(&sp), run_type::<i64>(&sp), run_type::<i128>(&sp)];
 
     // hash spread over the distinct values of the box (coverage only; nothing is demanded of it)
     let hashes: BTreeSet<u64> = vals.iter().filter_map(|&(a, b)| catch(|| hash_of(&rat::<i64>(a, b))).ok()).collect();
@@ -1097,9 +1583,18 @@ fn main() {
         }
         by.insert(TYPE_NAMES[ti].to_string(), Value::Object(o));
     }
-    let pair_evals: u64 = total.total_evals() - total.evals[Fam::Trans.idx()];
+    let multi_evals: u64 = Fam::all().into_iter().filter(|f| f.is_multi()).map(|f| total.evals[f.idx()]).sum();
+    let pair_evals: u64 = total.total_evals() - multi_evals;
     run.cov("evaluations", pair_evals);
     run.cov("order_law_triples_checked", total.evals[Fam::Trans.idx()]);
+    run.cov("multi_operand_evaluations", multi_evals - total.evals[Fam::Trans.idx()]);
+    run.cov("skipped_inverted_clamp_bounds", total.inverted);
+    run.cov(
+        "sequence_classes",
+        classes.iter().map(|c| json!({"box_bound": c.bound as i64, "length": c.len, "values": c.vals.len(), "sequences_per_type": (c.vals.len() as u64).pow(c.len as u32)})).collect::<Vec<Value>>(),
+    );
+    run.cov("long_sequences_per_type", long.len() as u64);
+    run.cov("long_sequence_lengths", long.iter().map(|c| c.len() / 2).collect::<BTreeSet<usize>>().into_iter().collect::<Vec<usize>>());
     run.cov("distinct_nontrivial", total.nontrivial);
     run.cov("skipped_out_of_domain", total.total_skipped());
     run.cov("skipped_zero_divisor", total.zero_div);
@@ -1130,10 +1625,19 @@ fn main() {
         format!(
             "for each of i32, i64, i128: (box) every ordered pair of operands new(a,b), new(c,d) with a,b,c,d in [-{bound},{bound}], b,d != 0; (boundary) every ordered pair of operands \
              with numerators in {{0}} u +-S and denominators in +-S, S = boundary_magnitudes; (chains) every ordered pair of operands new(+-s*u, t*v) with u in {{F(i), L(i)}}, v in {{F(j), L(j)}}              (Fibonacci and Lucas numbers, i, j >= 1, |i - j| <= 1, u and v not the same element), (s,t) in chain_scales, both components <= 2^30 -- neighbouring Fibonacci/Lucas numbers are the worst              case of Euclid's algorithm, and sums/products of such fractions (F(k)/F(k+1) * L(k)/L(k+1) = F(2k)/F(2k+2)) hand norm pairs whose remainder chain is far longer than for box or boundary              operands: longest_euclid_chain_handed_to_norm (counted by the reference with the plain remainder loop on the exact un-normalised result) must exceed the bit width of i32 and of i64              through each of new(i32 only) + - * /, checked at run time; (triples) every ordered triple of the {n} distinct values of the box, each built by new from its \
-             lowest-terms positive-denominator raw pair (cmp reads only the two fields, so other raw spellings of the same value are the same object). Per operand: new, neg, floor, ceil, Display \
-             (new_int when b = 1); per pair: + - * / each as `x op y`, `x op &y`, `x op= &y`, `x op= y`, ==/!=, Hash (only when numerically equal), cmp, partial_cmp, antisymmetry. \
+             lowest-terms positive-denominator raw pair (cmp reads only the two fields, so other raw spellings of the same value are the same object); (sequences) every sequence of the \
+             classes in sequence_classes (length 2 over the box values; lengths 4, 5, 6 over the distinct values of the boxes with bound 3, 2, 2); (long) every rotation of four arrangements of all \
+             the box values -- ascending, descending, simplest-first, simplest-first twice over (length 2*{n}) -- i.e. slices beyond the small-slice paths of std's sorts. \
+             Per operand: new, neg, floor, ceil, Display \
+             (new_int when b = 1); per pair: + - * / each as `x op y`, `x op &y`, `x op= &y`, `x op= y`, ==/!= on values and on references, Hash (only when numerically equal), cmp, partial_cmp, antisymmetry, \
+             and every ordering method reachable through an operator or an Ord adaptor, each against the sign of the exact cross-product difference: lt le gt ge as `x < y` and `&x < &y` (each is a \
+             separately overridable method of PartialOrd, and std's sorts, is_sorted and Ord::max/min are written in terms of them, not of cmp), max and min as x.max(y), std::cmp::max(x, y), \
+             std::cmp::max(&x, &y). Per triple (x, lo, hi) with lo <= hi: x.clamp(lo, hi). Per triple / sequence / long sequence v (numerically equal rationals have identical fields, so each adaptor has \
+             one right answer): v.sort() and v.sort_unstable() give the reference's numeric order, v.is_sorted(), binary_search of the last element in the reference-sorted rest (Ok at an index holding it, \
+             else Err(number of smaller elements)), v.iter().max() / .copied().max() / .copied().reduce(Ord::max) and the same for min. These are counted in multi_operand_evaluations, not in evaluations. \
              `evaluations` counts executions of the real code compared with the i128 reference (triples counted separately). A case is skipped (counted) when an exact intermediate the \
-             implementation forms on the normalised operands (a*d, b*c, a*d+-b*c, b*d, a*c, a-b+1, a+b-1) exceeds the type's MAX in magnitude, or the divisor is 0. \
+             implementation forms on the normalised operands (a*d, b*c, a*d+-b*c, b*d, a*c, a-b+1, a+b-1) exceeds the type's MAX in magnitude, or the divisor is 0; \
+             clamp with lo > hi (std documents a panic, the property is silent) is not evaluated and counted in skipped_inverted_clamp_bounds. \
              distinct_nontrivial = number of distinct (type, value pair) cases, counted at the canonical raw pair, in which at least one in-range operator result needs real normalisation \
              (reduction by a gcd > 1 or a sign moved off the denominator)",
             n = vals.len()
@@ -1160,6 +1664,25 @@ fn main() {
     run.sample(sample::<i32>("boundary", 46341, 1, 1, 46341));
     run.sample(sample::<i64>("chains", 267_914_296, 433_494_437, -599_074_578, 969_323_029)); // F(42)/F(43), -L(42)/L(43)
     run.sample(sample::<i32>("chains", 4181, 6765, 9349, 15127)); // F(19)/F(20), L(19)/L(20)
+    {
+        // one triple through the order-based adaptors, written out
+        let i = (rot.wrapping_mul(13) + 29) % vals.len();
+        let t = [vals[i], vals[(i + 31) % vals.len()], vals[(i + 59) % vals.len()]];
+        let seen = catch(|| {
+            let v: Vec<Rational<i64>> = t.iter().map(|&(a, b)| rat::<i64>(a, b)).collect();
+            let show = |v: &[Rational<i64>]| v.iter().map(|r| format!("{r}")).collect::<Vec<_>>();
+            let (mut s, mut u) = (v.clone(), v.clone());
+            s.sort();
+            u.sort_unstable();
+            json!({
+                "v.sort()": show(&s), "v.sort_unstable()": show(&u), "v.is_sorted()": v.is_sorted(),
+                "sorted(v[..2]).binary_search(&v[2])": format!("{:?}", { let mut h = v[..2].to_vec(); h.sort(); h.binary_search(&v[2]) }),
+                "v.iter().max()": v.iter().max().map(|r| format!("{r}")), "v.iter().min()": v.iter().min().map(|r| format!("{r}")),
+                "v[0].clamp(min(v[1],v[2]), max(v[1],v[2]))": format!("{}", v[0].clamp(v[1].min(v[2]), v[1].max(v[2]))),
+            })
+        });
+        run.sample(json!({"space": "triples", "type": "i64", "raw": case_text(&t.iter().flat_map(|&(a, b)| [a, b]).collect::<Vec<i128>>()), "observed": seen.unwrap_or_else(|m| json!(format!("panicked: {m}")))}));
+    }
 
     // ---- violations: per family the simplest failing case over all types and spaces
     for f in total.first.iter().flatten() {
@@ -1179,8 +1702,8 @@ fn main() {
     // ---- non-vacuity self-checks (all on reference-derived counters, so they hold with or without violations)
     for (ti, per_type) in accs.iter().enumerate() {
         let ty = TYPE_NAMES[ti];
-        let (bx, bd, ch, tr) = (&per_type[0], &per_type[1], &per_type[2], &per_type[3]);
-        if bound <= 1000 && (bx.total_skipped() != 0 || tr.total_skipped() != 0) {
+        let (bx, bd, ch, tr, sq, lg) = (&per_type[0], &per_type[1], &per_type[2], &per_type[3], &per_type[4], &per_type[5]);
+        if bound <= 1000 && (bx.total_skipped() != 0 || tr.total_skipped() != 0 || sq.total_skipped() != 0 || lg.total_skipped() != 0) {
             run.machinery_failure(&format!("{ty}: cases of the small box were skipped as out of domain"));
         }
         if bound >= 4 {
@@ -1191,9 +1714,36 @@ fn main() {
             }
         }
         for f in Fam::all() {
-            let want = f != Fam::Trans;
-            if want && bx.evals[f.idx()] == 0 {
+            if !f.is_multi() && bx.evals[f.idx()] == 0 {
                 run.machinery_failure(&format!("{ty}: family {} was never evaluated on the box", f.name()));
+            }
+        }
+        // every multi-operand family on every triple (clamp: on the triples with lo <= hi), every short class and
+        // every long sequence, and each of their situations actually met
+        let n3 = (vals.len() as u64).pow(3);
+        let n_classes: u64 = classes.iter().map(|c| (c.vals.len() as u64).pow(c.len as u32)).sum();
+        for op in SEQ_OPS {
+            let i = Fam::Seq(op).idx();
+            if tr.evals[i] != n3 || sq.evals[i] != n_classes || lg.evals[i] != long.len() as u64 {
+                run.machinery_failure(&format!("{ty}: family {} was not evaluated on every triple / short sequence / long sequence", op.name()));
+            }
+        }
+        if tr.evals[Fam::Clamp.idx()] + tr.inverted != n3 || tr.evals[Fam::Clamp.idx()] <= tr.inverted {
+            run.machinery_failure(&format!("{ty}: clamp was not evaluated on every triple with lo <= hi"));
+        }
+        if bound >= 4 {
+            for (i, n) in SEQ_NV_NAMES.iter().enumerate() {
+                if tr.seq_nv[i] == 0 {
+                    run.machinery_failure(&format!("{ty}: the triples never reached the situation `{n}`"));
+                }
+                if i < 5 && sq.seq_nv[i] == 0 {
+                    run.machinery_failure(&format!("{ty}: the short sequences never reached the situation `{n}`"));
+                }
+            }
+            // slices beyond the small-slice routines of std's sorts (at most 20 / 32 elements), both already
+            // ordered and not, with and without repeated values
+            if lg.seq_max_len <= 64 || lg.seq_nv[0] == 0 || lg.seq_nv[1] == 0 || lg.seq_nv[2] == 0 || lg.seq_nv[4] == 0 {
+                run.machinery_failure(&format!("{ty}: the long sequences are not long or not varied enough"));
             }
         }
         if tr.evals[Fam::Trans.idx()] != (vals.len() as u64).pow(3) {
